@@ -99,7 +99,8 @@ def launch(vh, driver, np, seed, tier, lo, hi, wdir, tag, env_extra, timeout, ex
     env = runner.base_env(env_extra)
     env["VH_MPI_RUN"] = "1"
     env["POMEROL_VERIF_LOG_DIR"] = logdir
-    cmd = ["mpiexec", "--oversubscribe", "-np", str(np)] + (mpiexec_args or []) + [vh, driver, "--seed", str(seed), "--tier", tier, "--from", str(lo), "--to", str(hi), "--out", out] + (extra_args or [])
+    vhcmd = vh if isinstance(vh, list) else [vh]      # a list allows a wrapper such as valgrind in front of the harness binary
+    cmd = ["mpiexec", "--oversubscribe", "-np", str(np)] + (mpiexec_args or []) + vhcmd + [driver, "--seed", str(seed), "--tier", tier, "--from", str(lo), "--to", str(hi), "--out", out] + (extra_args or [])
     errp = os.path.join(wdir, tag + ".err")
     t0 = time.monotonic_ns()
     res = dict(np=np, tag=tag, logdir=logdir, timed_out=False, evidence=None)
